@@ -246,6 +246,12 @@ static void build_table()
 	add("Rejection_Sampling", "valid_envelope", ACCEPT, []() { std::mt19937 g(1); return Rejection_Sampling([](double x) { return 0.5; }, 0, 2, 0.5, g); });
 	add("Rejection_Sampling", "negative_pdf", REJECT, []() { std::mt19937 g(1); return Rejection_Sampling([](double x) { return -0.5; }, 0, 2, 0.5, g); });
 	add("Rejection_Sampling", "pdf_above_envelope", REJECT, []() { std::mt19937 g(1); return Rejection_Sampling([](double x) { return 2.0; }, 0, 2, 0.5, g); });
+	add("Rejection_Sampling_2D", "valid_envelope", ACCEPT, []() { std::mt19937 g(1); std::function<double(double, double)> f = [](double x, double y) { return 0.25; }; return Rejection_Sampling_2D(g, f, 0, 2, -1, 1, 0.25).first; });
+	add("Rejection_Sampling_2D", "pdf_above_envelope", REJECT, []() { std::mt19937 g(1); std::function<double(double, double)> f = [](double x, double y) { return 2.0; }; return Rejection_Sampling_2D(g, f, 0, 2, -1, 1, 0.25).first; });
+	add("Rejection_Sampling_2D", "negative_pdf", REJECT, []() { std::mt19937 g(1); std::function<double(double, double)> f = [](double x, double y) { return -0.5; }; return Rejection_Sampling_2D(g, f, 0, 2, -1, 1, 0.25).first; });
+	add("Rejection_Sampling_2D", "nan_pdf", REJECT, []() { std::mt19937 g(1); std::function<double(double, double)> f = [](double x, double y) { return std::nan(""); }; return Rejection_Sampling_2D(g, f, 0, 2, -1, 1, 0.25).first; });
+	add("Rejection_Sampling", "nan_pdf", REJECT, []() { std::mt19937 g(1); return Rejection_Sampling([](double x) { return std::nan(""); }, 0, 2, 0.5, g); });
+	add("Rejection_Sampling", "pdf_within_one_percent_above_envelope", ACCEPT, []() { std::mt19937 g(1); return Rejection_Sampling([](double x) { return 0.503; }, 0, 2, 0.5, g); });
 	// ---- Special functions --------------------------------------------------------------------------------------------
 	for(unsigned n : {0u, 169u, 170u, 171u, 172u, UINT_MAX})
 		add("Factorial", "n=" + std::to_string(n), n <= 170 ? ACCEPT : REJECT, [=]() { return Factorial(n); });
@@ -337,6 +343,19 @@ int main(int argc, char** argv)
 		mc::count("evaluations", 1);
 		mc::count("distinct_nontrivial", 1);
 		bool ok = r.side == ACCEPT ? o.kind == mc::Outcome::RETURNED : o.diagnostic();
+		if(r.side == REJECT && o.diagnostic())
+		{
+			// which of the library's guards answered (for the evidence: guard sites reached)
+			size_t a = o.out.find("Error in ");
+			if(a != std::string::npos)
+			{
+				size_t b = o.out.find_first_of(" \n", a + 9);
+				std::string site = o.out.substr(a + 9, b == std::string::npos ? std::string::npos : b - a - 9);
+				while(!site.empty() && (site.back() == ':' || site.back() == '.')) site.pop_back();
+				mc::count("guard_site." + site, 1);
+			}
+			else mc::count("guard_site.(other wording)", 1);
+		}
 		std::string key = r.entry + "|" + r.letter;
 		std::replace(key.begin(), key.end(), ' ', '_');
 		if(!ok)
